@@ -90,6 +90,24 @@ def cases(tier):
             s["opts"]["dur"] = 6 * H
             s["id"] = {"skel": name, "devs": [{"k": "valve", "l": "p2", "vt": vt, "setting": s0}, {"k": "ctl_setting"}]}
             out.append(s)
+    # a regulating valve with a closed bypass (skeleton par: p2 || p3 is the only route to J2, J3), both ways round, and with
+    # the bypass opened / closed by time controls: the station as a whole keeps the zone connected
+    if tier == "quick":          # (thorough contains every valve x closed pair already)
+        for vl, bp in (("p2", "p3"), ("p3", "p2")):
+            for vt, sv in (("PRV", 20.0), ("PSV", 20.0), ("FCV", 0.005), ("TCV", 50.0)):
+                for ctl in (False, True):
+                    s = clone(netspace.skeletons()["par"])
+                    devs = [{"k": "valve", "l": vl, "vt": vt, "setting": sv}, {"k": "closed", "l": bp}]
+                    for d in devs:
+                        s = netspace.apply(s, d)
+                    if not netspace.valid(s):
+                        continue
+                    if ctl:
+                        s["controls"] = [{"kind": "time", "t": 2 * H, "link": bp, "value": "OPEN"}, {"kind": "time", "t": 4 * H, "link": bp, "value": "CLOSED"}]
+                        devs = devs + [{"k": "ctl_bypass"}]
+                    s["opts"]["dur"] = 6 * H
+                    s["id"] = {"skel": "par", "devs": devs}
+                    out.append(s)
     return out
 
 
